@@ -77,6 +77,17 @@ def sigmaOf (ls : List (Var × String)) (j : Json) : Var → Int := fun v =>
     | .ok n => n
     | .error _ => 0
 
+/-- Lean source of a variable (used by `tools/ilpbatch_lean_case.py` to print witnesses). -/
+def varSrc : Var → String
+  | .start b => s!".start {b}"
+  | .x b w s => s!".x {b} {w} {s}"
+  | .allParents b => s!".allParents {b}"
+  | .overlap a b => s!".overlap {a} {b}"
+  | .after a b => s!".after {a} {b}"
+  | .before a b => s!".before {a} {b}"
+  | .greward g => s!".greward {g}"
+  | .treward t => s!".treward {t}"
+
 def handleE (j : Json) : Except String Json := do
   let I ← parseInst (← fld j "inst")
   if let some cls := I.crash then return errJ cls
@@ -89,6 +100,8 @@ def handleE (j : Json) : Except String Json := do
       [("vars", jList (jDecl lab) m.vars), ("constrs", jList (jConstr lab) m.constrs),
        ("obj", jQuad lab m.obj)]
     else []
+  let base := base ++ (if (fldBool j "varmap").toOption.getD false then
+      [("varmap", jList (fun (p : Var × String) => Json.arr #[Json.str p.2, Json.str (varSrc p.1)]) ls)] else [])
   let base := base ++ [("batches", jList (jBatch I) I.batches),
                        ("decode_fail", jList (jDecision I) (decodeFailB I)), ("wf", Json.bool I.wf)]
   let withSigma : List (String × Json) :=
